@@ -49,7 +49,11 @@ UOne == << Base,
         [Base EXCEPT !.created = Cr("c1") \o <<Fr("c2", "c.go", 3, Args(<<>>, FALSE))>>],
         [Base EXCEPT !.created = Cr("c1") \o <<Fr("c1", "c.go", 4, Args(<<>>, FALSE))>>],
         \* 28: nil where the others hold a pointer (a non-pointer value, like 15, but the one a generalised slot could be mistaken to cover)
-        WithArgs(Args(<<Sc(0, FALSE), Sc(5, FALSE), Ag2(Sc(700000, TRUE), Sc(2, FALSE))>>, FALSE))
+        WithArgs(Args(<<Sc(0, FALSE), Sc(5, FALSE), Ag2(Sc(700000, TRUE), Sc(2, FALSE))>>, FALSE)),
+        \* 29: the literal 0 where 16 has the too-large marker '_' (whose value is recorded as 0 too)
+        WithArgs(Args(<<Sc(600000, TRUE), Sc(0, FALSE), Ag2(Sc(700000, TRUE), Sc(2, FALSE))>>, FALSE)),
+        \* 30: a file of the same base name in another directory
+        [Base EXCEPT !.fr = <<[Fr("f", "d/a.go", 1, A0) EXCEPT !.dirsrc = "d/a.go"]>>]
      >>
 
 (* Members of ONE similarity class (at the coarser levels) in which every
@@ -80,8 +84,8 @@ UMerge == << EBase,
 
 U == IF Univ = "one" THEN UOne ELSE UMerge
 
-MCTokRank == [t \in {"s1","s2","f","g","h","a.go","b.go","c.go","c1","c2"} |->
-                CASE t = "a.go" -> 1 [] t = "b.go" -> 2 [] t = "c.go" -> 3 [] t = "c1" -> 4 [] t = "c2" -> 5
+MCTokRank == [t \in {"s1","s2","f","g","h","a.go","b.go","c.go","c1","c2","d/a.go"} |->
+                CASE t = "d/a.go" -> 0 [] t = "a.go" -> 1 [] t = "b.go" -> 2 [] t = "c.go" -> 3 [] t = "c1" -> 4 [] t = "c2" -> 5
                   [] t = "f" -> 6 [] t = "g" -> 7 [] t = "h" -> 8 [] t = "s1" -> 9 [] t = "s2" -> 10]
 
 VARIABLES phase, snap, lvl, rev, bmap, i, order, result
